@@ -1,6 +1,6 @@
 (** C29 — property theorems only. *)
 From Coq Require Import List ZArith NArith.
-From C33 Require Import C25.Model C25.Proofs C29.Model C29.Proofs C29.Proofs2 C29.Proofs3.
+From C33 Require Import C25.Model C25.Proofs C29.Model C29.Proofs C29.Proofs2 C29.Proofs3 C29.Proofs4.
 Import ListNotations.
 Open Scope Z_scope.
 
@@ -142,3 +142,40 @@ Theorem C29_split_batch_unsafe :
   exists k, recover (replay d0 (firstn k ex_split_log)) = RFail.
 Proof. split; [exact split_same_final|exact split_unsafe]. Qed.
 Print Assumptions C29_split_batch_unsafe.
+
+(** Granularity of the write log (what the trace comparison of the
+    correspondence check relies on).  The model has no block size: [FTx b h]
+    stands for the index records of all transactions of [b].  A unit is a
+    [chain_unit] when it writes the blockchain database (anything but the state
+    tree).  A connect either leaves the chain as it is and writes no chain unit,
+    or puts [b] on the chain and writes exactly ONE: the connect batch, which
+    holds the tx index, the block rows, last height, height->hash, the sequence
+    record and the total difficulty. *)
+Theorem C29_connect_is_one_unit :
+  forall (sid : N -> N) (s : pst) (b : block),
+  let r := exec_op sid s (OConn b) in
+  (chain_units (snd r) = [] /\ p_chain (fst r) = p_chain s) \/
+  (exists td, td_of (p_d s) b = Some td /\
+     chain_units (snd r) = [conn_batch (p_d s) b td] /\ p_chain (fst r) = b :: p_chain s).
+Proof. exact connect_is_one_unit. Qed.
+Print Assumptions C29_connect_is_one_unit.
+
+(** A disconnect either does nothing or removes the tip [t] and writes exactly
+    one unit, the disconnect batch. *)
+Theorem C29_disconnect_is_one_unit :
+  forall (sid : N -> N) (s : pst) (b : block),
+  let r := exec_op sid s (ODisc b) in
+  (snd r = [] /\ fst r = s) \/
+  (exists t c, p_chain s = t :: c /\ bid t = bid b /\
+     snd r = disc_units (p_d s) t /\ chain_units (snd r) = snd r /\ length (snd r) = 1%nat /\
+     p_chain (fst r) = c).
+Proof. exact disconnect_is_one_unit. Qed.
+Print Assumptions C29_disconnect_is_one_unit.
+
+(** Hence the log of ANY operation sequence holds at most one chain unit per
+    operation. *)
+Theorem C29_log_one_unit_per_op :
+  forall (sid : N -> N) (ops : list op) (s : pst),
+  (length (chain_units (snd (run_ops sid s ops))) <= length ops)%nat.
+Proof. exact log_one_unit_per_op. Qed.
+Print Assumptions C29_log_one_unit_per_op.
